@@ -82,6 +82,37 @@ class InstanceReport:
         if isinstance(negated, (list, tuple)):
             negated = z3.Or(*negated) if len(negated) != 1 else negated[0]
         self.obligations += 1
+        from .core import Settings as _S
+        if _S.engine != "smt":
+            # polynomial engines: one query, no uninterpreted symbols, the model (if any) is exact
+            t0, keep_to = ctx.solver_ms, ctx.timeout_ms
+            if timeout_ms:
+                ctx.timeout_ms = timeout_ms
+            try:
+                r, m = ctx.model(negated)
+            finally:
+                ctx.timeout_ms = keep_to
+            self.solver_ms += ctx.solver_ms - t0
+            if r == z3.unsat:
+                self.discharged += 1
+                return "unsat"
+            if r == z3.sat:
+                spec = None
+                try:
+                    spec = witness(m) if witness is not None else None
+                except Exception as e:   # noqa
+                    self.errors.append(f"{label}: witness construction failed: {type(e).__name__}: {e}")
+                if spec is None:
+                    self.inconclusive.append(f"{label}: sat but no replayable witness")
+                else:
+                    spec.setdefault("label", label)
+                    spec.setdefault("instance", self.name)
+                    if key:
+                        spec.setdefault("key", key)
+                    self.candidates.append(spec)
+                return "sat"
+            self.inconclusive.append(f"{label}: solver returned unknown (engine {_S.engine})")
+            return "unknown"
         if nlsat_first:
             t1 = time.time()
             r2 = nlsat_unsat(ctx.constraints() + [negated], timeout_ms or ctx.timeout_ms)
@@ -111,6 +142,12 @@ class InstanceReport:
                 if r3 == z3.sat:
                     m = m3
                     real = False
+            else:
+                t1 = time.time()
+                r3, m3 = shaped_model(ctx, negated)
+                self.solver_ms += (time.time() - t1) * 1000
+                if r3 == z3.sat:
+                    m = m3
             if witness is not None:
                 try:
                     env = None
@@ -221,10 +258,28 @@ def fl(x):
     return x
 
 
+def shaped_model(ctx, *extra, bound=2):
+    """A model of the path condition (+ extra) in which every log-amplitude input (constants named ln_*) lies in
+    [-bound, bound], so that the true exponentials are ordinary floats; falls back to any model.  Witness
+    construction only: the verdict (sat) has already been given by the solver."""
+    from .core import free_vars
+    names = set()
+    for c in list(ctx.constraints()) + list(extra):
+        free_vars(c, names)
+    lns = [z3.Real(n) for n in sorted(names) if n.startswith("ln_")]
+    if lns:
+        r, m = ctx.model(*extra, *[z3.And(v >= -bound, v <= bound) for v in lns])
+        if r == z3.sat:
+            return r, m
+    return ctx.model(*extra)
+
+
 def concretiser(m):
     """x -> float: value of a Sym / number under model m (or an env dict) with the true functions in place
     of the UFs (inputs created as exp(u) are concretised as math.exp(model(u)), not as the model's own 'exp')."""
     from .core import Sym, is_nan
+    if isinstance(m, dict) and not isinstance(m, DefaultEnv):
+        m = DefaultEnv({k: (v if isinstance(v, bool) else float(v)) for k, v in m.items()})
     env = m if isinstance(m, dict) else DefaultEnv(env_from_model(m))
     cache = {}
 
